@@ -4128,12 +4128,49 @@ impl QueryRouter {
     }
 
     fn evaluate_join_condition(&self, expr: &Expr, row: &Row) -> bool {
+        self.join_condition_truth(expr, row) == Some(true)
+    }
+
+    /// SQL truth value of a WHERE / HAVING expression on a joined or aggregated row:
+    /// `None` is UNKNOWN (a comparison with NULL, e.g. on the missing side of an outer join).
+    fn join_condition_truth(&self, expr: &Expr, row: &Row) -> Option<bool> {
         match &expr.kind {
+            ExprKind::Binary(left, BinaryOp::And, right) => {
+                match (
+                    self.join_condition_truth(left, row),
+                    self.join_condition_truth(right, row),
+                ) {
+                    (Some(false), _) | (_, Some(false)) => Some(false),
+                    (Some(true), Some(true)) => Some(true),
+                    _ => None,
+                }
+            },
+            ExprKind::Binary(left, BinaryOp::Or, right) => {
+                match (
+                    self.join_condition_truth(left, row),
+                    self.join_condition_truth(right, row),
+                ) {
+                    (Some(true), _) | (_, Some(true)) => Some(true),
+                    (Some(false), Some(false)) => Some(false),
+                    _ => None,
+                }
+            },
+            ExprKind::Unary(neumann_parser::UnaryOp::Not, inner) => {
+                self.join_condition_truth(inner, row).map(|t| !t)
+            },
+            ExprKind::IsNull {
+                expr: inner,
+                negated,
+            } => {
+                let is_null = matches!(self.get_row_value(inner, row), None | Some(Value::Null));
+                Some(is_null != *negated)
+            },
             ExprKind::Binary(left, op, right) => {
                 let left_val = self.get_row_value(left, row);
                 let right_val = self.get_row_value(right, row);
                 match (left_val, right_val) {
-                    (Some(l), Some(r)) => match op {
+                    (Some(Value::Null), _) | (_, Some(Value::Null)) | (None, _) | (_, None) => None,
+                    (Some(l), Some(r)) => Some(match op {
                         BinaryOp::Eq => l == r,
                         BinaryOp::Ne => l != r,
                         BinaryOp::Lt => {
@@ -4150,17 +4187,17 @@ impl QueryRouter {
                             self.compare_values(&l, &r),
                             Some(std::cmp::Ordering::Greater | std::cmp::Ordering::Equal)
                         ),
-                        BinaryOp::And => l.is_truthy() && r.is_truthy(),
-                        BinaryOp::Or => l.is_truthy() || r.is_truthy(),
                         _ => false,
-                    },
-                    _ => false,
+                    }),
                 }
             },
-            ExprKind::Ident(_) | ExprKind::Qualified(_, _) => {
-                self.get_row_value(expr, row).is_some_and(|v| v.is_truthy())
+            ExprKind::Literal(_) | ExprKind::Ident(_) | ExprKind::Qualified(_, _) => {
+                match self.get_row_value(expr, row) {
+                    None | Some(Value::Null) => None,
+                    Some(v) => Some(v.is_truthy()),
+                }
             },
-            _ => true,
+            _ => Some(true),
         }
     }
 
